@@ -1,45 +1,110 @@
 import Spine.DispatchThm
+/-! Per-step theorems for C03 on `Spine.Disp.processCmd`: a write takes effect only through the gate; a denied write
+    is silent; an authorised write is applied, fanned out to the subscribers and acknowledged. The history-level
+    statement (`c03_follows_registry`) is in `Spine/C03Reg.lean`. -/
 namespace Spine.Disp
 
 theorem written_setPeer (w : W) (p : Nat) (pr : Peer) : (setPeer w p pr).written = w.written := rfl
+theorem written_bump (w : W) (outs : List (Nat × Out)) : (bump w outs).written = w.written := rfl
+theorem binds_setPeer (w : W) (p : Nat) (pr : Peer) : (setPeer w p pr).binds = w.binds := rfl
+theorem binds_bump (w : W) (outs : List (Nat × Out)) : (bump w outs).binds = w.binds := rfl
+theorem subs_setPeer (w : W) (p : Nat) (pr : Peer) : (setPeer w p pr).subs = w.subs := rfl
+theorem subs_bump (w : W) (outs : List (Nat × Out)) : (bump w outs).subs = w.subs := rfl
+
+theorem binds_record (w : W) (b : Bool) (d : Dg) : (record w b d).binds = w.binds := by
+  unfold record; split <;> rfl
+
+theorem subs_record (w : W) (b : Bool) (d : Dg) : (record w b d).subs = w.subs := by
+  unfold record; split <;> rfl
+
+theorem written_record (w w' : W) (b : Bool) (d : Dg) (h : w'.written = w.written) :
+    (record w' b d).written = (record w b d).written := by
+  unfold record; split <;> simp [h]
+
+/-- the gate is open iff the function is announced writable and the registry holds the writer's binding -/
+theorem gateOk_iff (w : W) (p : Nat) (lf : LF) (d : Dg) :
+    gateOk w p lf d = true ↔ writable lf d.fn = true ∧ (d.dst, p, d.src) ∈ w.binds := by
+  unfold gateOk
+  simp only [Bool.and_eq_true, List.any_eq_true, decide_eq_true_eq]
+  constructor
+  · rintro ⟨hw, b, hb, ⟨h1, h2⟩, h3⟩
+    refine ⟨hw, ?_⟩
+    have : b = (d.dst, p, d.src) := by
+      obtain ⟨b1, b2, b3⟩ := b
+      simp only at h1 h2 h3
+      subst h1; subst h2; subst h3; rfl
+    rw [← this]; exact hb
+  · rintro ⟨hw, hb⟩
+    exact ⟨hw, (d.dst, p, d.src), hb, ⟨rfl, rfl⟩, rfl⟩
+
+/-- the effect recorded by a step is that of `record` -/
+theorem written_processCmd (w : W) (p : Nat) (d : Dg) (lf : LF) (rf : RF) (hsrc : srcF w p d = some rf)
+    (hdst : dstF w d = some lf) (hp : panics d = false) :
+    (processCmd w p d).1.written = (record w (applies w p lf d) d).written := by
+  unfold processCmd
+  simp only [hsrc, hdst, hp, Bool.false_eq_true, if_false]
+  split
+  · cases hreq : request ((bump (record (setPeer w p (answered (w.peers p) d.ref)) (applies w p lf d) d)
+        ((if applies w p lf d = true then notifs w d else []) ++ tag p (responses w p lf rf d))).peers p) d.src d.fn with
+    | mk pr' sent => simp only [written_setPeer, written_bump]; exact written_record _ _ _ _ rfl
+  · simp only [written_bump]; exact written_record _ _ _ _ rfl
 
 /-- C03: the data of a local feature changes only through a write datagram whose function is announced writable
-    on the addressed feature, whose sender holds a binding to that feature, and which the feature holds data for -/
+    on the addressed feature, whose sender holds a binding to that feature at that moment, and which the feature
+    holds data for -/
 theorem c03_effect_only_if (w : W) (p : Nat) (d : Dg) (hch : (processCmd w p d).1.written ≠ w.written) :
-    ∃ lf, dstF w d = some lf ∧ d.cls = .write ∧ gateOk w p lf d = true ∧ lf.fds.contains d.fn = true := by
-  unfold processCmd at hch
+    ∃ lf, dstF w d = some lf ∧ d.cls = .write ∧ writable lf d.fn = true ∧ (d.dst, p, d.src) ∈ w.binds ∧
+      lf.fds.contains d.fn = true := by
   cases hsrc : srcF w p d with
-  | none => simp [hsrc, written_setPeer] at hch
+  | none => simp [processCmd, hsrc, written_setPeer] at hch
   | some rf =>
-    simp only [hsrc] at hch
     cases hdst : dstF w d with
-    | none => simp [hdst, written_setPeer] at hch
+    | none =>
+      unfold processCmd at hch
+      simp only [hsrc, hdst] at hch
+      split at hch <;> simp [written_setPeer, written_bump] at hch
     | some lf =>
-      simp only [hdst] at hch
       refine ⟨lf, rfl, ?_⟩
-      have hrec : (record w p lf d).written ≠ w.written := by
+      cases hp : panics d with
+      | true => simp [processCmd, hsrc, hdst, hp, written_setPeer] at hch
+      | false =>
+        rw [written_processCmd w p d lf rf hsrc hdst hp] at hch
+        unfold record at hch
         split at hch
-        · simp [written_setPeer] at hch
-        · split at hch
-          · cases hreq : request (sendN (answered (w.peers p) d.ref) (responses w p lf rf d).length) d.src d.fn with
-            | mk pr' sent => simp only [hreq, written_setPeer] at hch; exact hch
-          · simpa [written_setPeer] using hch
-      unfold record at hrec
-      split at hrec
-      · rename_i happ
-        simp only [applies, Bool.and_eq_true, decide_eq_true_eq, Bool.not_eq_true'] at happ
-        exact ⟨happ.1.1.1, happ.1.1.2, happ.2⟩
-      · exact absurd rfl hrec
+        · rename_i happ
+          simp only [applies, Bool.and_eq_true, decide_eq_true_eq, Bool.not_eq_true'] at happ
+          have hg := (gateOk_iff w p lf d).mp happ.1.1.1.2
+          exact ⟨happ.1.1.1.1, hg.1, hg.2, happ.1.2⟩
+        · exact absurd rfl hch
 
-/-- C03: a write that is not authorised changes nothing and is answered with exactly one error result -/
+/-- C03: a write that is not authorised changes nothing (data, registries), notifies nobody and is answered with
+    exactly one error result, on the writer's connection -/
 theorem c03_denied_is_silent (w : W) (p : Nat) (d : Dg) (lf : LF) (rf : RF) (hsrc : srcF w p d = some rf)
     (hdst : dstF w d = some lf) (hw : d.cls = .write) (hg : gateOk w p lf d = false) :
-    (processCmd w p d).1.written = w.written ∧ (processCmd w p d).2 = [res d 1] := by
+    (processCmd w p d).1.written = w.written ∧ (processCmd w p d).2 = [(p, res d 1)] := by
   have hpan : panics d = false := by simp [panics, hw]
   have hresp : responses w p lf rf d = [res d 1] := by simp [responses, hw, hg]
   have hwr : wantsRead w p lf rf d = false := by simp [wantsRead, hw]
-  have hrec : record w p lf d = w := by simp [record, applies, hg]
+  have happ : applies w p lf d = false := by simp [applies, hg]
   unfold processCmd
-  simp [hsrc, hdst, hpan, hresp, hwr, hrec, written_setPeer]
+  simp [hsrc, hdst, hpan, hresp, hwr, happ, record, written_setPeer, written_bump, tag]
+
+/-- C03: an authorised write of a function the feature holds is applied, every subscriber of the feature is
+    notified once, and the writer gets exactly the requested acknowledgement -/
+theorem c03_accepted (w : W) (p : Nat) (d : Dg) (lf : LF) (rf : RF) (hsrc : srcF w p d = some rf)
+    (hdst : dstF w d = some lf) (hw : d.cls = .write) (hg : gateOk w p lf d = true) (hnm : lf.nm = false)
+    (hf : lf.fds.contains d.fn = true) (hb : d.bad = false) :
+    (processCmd w p d).1.written = (d.dst, d.fn) :: w.written ∧
+      (processCmd w p d).2 = notifs w d ++ (if d.ack then [(p, res d 0)] else []) := by
+  have hpan : panics d = false := by simp [panics, hw]
+  have hf' : d.fn ∈ lf.fds := by simpa using hf
+  have hresp : responses w p lf rf d = if d.ack then [res d 0] else [] := by simp [responses, hw, hg, hnm, hf', hb]
+  have hwr : wantsRead w p lf rf d = false := by simp [wantsRead, hw]
+  have happ : applies w p lf d = true := by simp [applies, hg, hw, hnm, hf', hb]
+  refine ⟨?_, ?_⟩
+  · rw [written_processCmd w p d lf rf hsrc hdst hpan]; simp [record, happ]
+  · unfold processCmd
+    simp only [hsrc, hdst, hpan, hwr, happ, hresp, Bool.false_eq_true, if_false, if_true]
+    cases d.ack <;> simp [tag]
 
 end Spine.Disp
